@@ -91,10 +91,9 @@ def run(ck):
         gV = us.gamma_valence_qed(order, n, nf, v7, fhm)
         qS = us.gamma_singlet((nq, 0), n, nf, v7, fhm)
         qns = {m: us.gamma_ns((nq, 0), m, n, nf, v7, fhm) for m in (10101, 10201, 10200)}
-        # in the singlet block the qq variation slot also drives the ns+ part of qq (v7[3]); the
-        # Sigma_Delta entry must be that same ns+: reference with slot 4 := slot 3
-        v_sd = v7[:4] + (v7[3],) + v7[5:]
-        qns_sd = us.gamma_ns((nq, 0), 10101, n, nf, v_sd, fhm)
+        # Sigma_Delta is a non-singlet plus combination: its entry is gamma_ns(10101) for the SAME
+        # variation tuple (slot 4, nsp) - not the ns+ part hidden inside qq (slot 3)
+        qns_sd = qns[10101]
         gns = {m: us.gamma_ns_qed(order, m, n, nf, v7, fhm) for m in (10102, 10103, 10202, 10203)}
 
         # shapes
@@ -135,8 +134,6 @@ def run(ck):
             for j in range(1, order[1] + 1):
                 tot = np.abs(gS[k, j]).max() + np.abs(gV[k, j]).max() + sum(abs(g[k, j]) for g in gns.values())
                 cmp("photon_decoupled", "C30/grid/unimplemented-slot", ("empty", k, j, n, tag), tot, 0.0, dict(info, slice=(k, j)), scale=1.0)
-        if order[1] < 2 and False:
-            pass
 
         # ---------------- up/down charge ratio at O(aem) and O(as aem)
         for j_as in (0, 1):
